@@ -149,6 +149,7 @@ Section OpenProofs.
     rewrite tail_magic, !tail_length in H by exact H8.
     destruct (negb (is_magic (slice f (flen f - 4) 4))) eqn:E3; [discriminate|].
     destruct (flen f <? le32 (slice f (flen f - 8) 4) + 8) eqn:E4; [discriminate|].
+    destruct (beqb (slice f (flen f - 4) 4) magic_pare && negb hk); [discriminate|].
     destruct (decode (slice f (flen f - 8 - le32 (slice f (flen f - 8) 4)) (le32 (slice f (flen f - 8) 4)))) eqn:E5; [|discriminate].
     unfold valid_trailer. split; [exact H8|]. split; [now apply negb_false_iff in E3|].
     split; [lia|]. rewrite E5. discriminate.
@@ -285,6 +286,7 @@ Section OpenCfgProofs.
     rewrite tail_magic, !tail_length in H by exact H8.
     destruct (negb (is_magic (slice f (flen f - 4) 4))) eqn:E3; [discriminate|].
     destruct (negb (le32 (slice f (flen f - 8) 4) <=? tail_read_size o rbs (flen f) - 8) && (flen f <? le32 (slice f (flen f - 8) 4) + 8)) eqn:E4; [discriminate|].
+    destruct (beqb (slice f (flen f - 4) 4) magic_pare && negb hk); [discriminate|].
     destruct (decode (slice f (flen f - 8 - le32 (slice f (flen f - 8) 4)) (le32 (slice f (flen f - 8) 4)))) eqn:E5; [|discriminate].
     unfold valid_trailer. split; [exact H8|]. split; [now apply negb_false_iff in E3|].
     split; [lia|]. rewrite E5. discriminate.
